@@ -97,7 +97,7 @@ def step (st : St) (toks : List String) : St × String :=
       let s := st.s
       let conns := String.intercalate " " (s.ids.filterMap fun c => (s.conn c).map (connStr c))
       let subs := String.intercalate " " (chans.map fun ch =>
-        s!"{hex ch}=[{String.intercalate "," ((s.subs ch).map toString)}]")
+        s!"{hex ch}=[{String.intercalate "," (((s.subs ch).toArray.qsort (· < ·)).toList.map toString)}]")
       let g := String.intercalate " " ((labels.flatMap fun l => chans.filterMap fun ch =>
         if s.gSubs l ch = 0 then none else some s!"{optHex l}/{hex ch}={s.gSubs l ch}"))
       let lost := String.intercalate " " (labels.filterMap fun l =>
